@@ -503,7 +503,17 @@ class Interp:
             if '__truth__' not in v.attrs:
                 v.attrs['__truth__'] = self.fresh('truthy_' + v.kind, BoolS)
             return v.attrs['__truth__']
-        if isinstance(v, (FuncDefV, UFunc, Builtin, BoundMethod, ClassV, Opaque, Instance, GenObj, Stream, RegexV,
+        if isinstance(v, (Opaque, Instance)):
+            # an object is truthy unless its class defines __bool__ / __len__: for an object standing for an instance of a
+            # class of the repository (by kind / class) that defines one of them, the truth value is unknown (but fixed)
+            cls = v.cls if isinstance(v, Instance) else self.classes.get(v.kind)
+            if cls is not None and isinstance(cls, ClassV):
+                if self.lib.find_method(cls, '__bool__') is not None or self.lib.find_method(cls, '__len__') is not None:
+                    if '__truth__' not in v.attrs:
+                        v.attrs['__truth__'] = self.fresh('truthy_' + cls.name, BoolS)
+                    return v.attrs['__truth__']
+            return True
+        if isinstance(v, (FuncDefV, UFunc, Builtin, BoundMethod, ClassV, GenObj, Stream, RegexV,
                           ExcV, ModuleV, Tree)):
             if isinstance(v, Tree):
                 raise Unsupported('truthiness of descriptor node')
